@@ -85,3 +85,21 @@ Theorem C11_expand_terminates tb hs env t fuel :
   (enough tb hs (tsize t) < fuel)%nat -> exists o, exp tb fuel hs env t = Some o.
 Proof. exact (expand_terminates tb hs env t fuel). Qed.
 Print Assumptions C11_expand_terminates.
+
+(* on a closed sequence over a NON-RECURSIVE table (a rank function decreases along "body of m mentions k") the
+   model's result is the call-by-name result `CBN` (substitute the unexpanded arguments, rescan, no hide sets):
+   pre-expanding the arguments, not rescanning them and the hide set make no difference there.
+   partial: recursive tables are outside (there simplecpp and gcc differ, see the mx stream); #, ## excluded. *)
+Theorem C11_expand_eq_call_by_name_partial tb rank fuel bound t o :
+  nonrec tb rank -> okt tb rank bound t -> exp tb fuel [] [] t = Some o -> CBN tb (subst ANil t) o.
+Proof. intros NR. exact (expand_eq_call_by_name tb rank NR fuel bound t o). Qed.
+Print Assumptions C11_expand_eq_call_by_name_partial.
+
+Theorem C11_expand_total_call_by_name_partial tb rank bound t :
+  nonrec tb rank -> okt tb rank bound t ->
+  exists o, exp tb (S (enough tb [] (tsize t))) [] [] t = Some o /\ CBN tb (subst ANil t) o.
+Proof. intros NR. exact (expand_total_call_by_name tb rank NR bound t). Qed.
+Print Assumptions C11_expand_total_call_by_name_partial.
+
+Example C11_expand_premises : nonrec tb_ex rank_ex /\ okt tb_ex rank_ex 2 use_ex.
+Proof. exact (conj nonrec_ex okt_ex). Qed.
